@@ -119,7 +119,7 @@ HBJudge(t) ==
        THEN <<"shape:harfbuzz-shapes-differently-on-differently-serialised-tables", 0, 0, 0>>
        ELSE IF Len(t.orig) > 0 /\ \E ck \in CK(t) : ObsOf(t, t.orig, ck[1], ck[2]) # ObsOf(t, t.runs[f].hb, ck[1], ck[2])
        THEN <<"shape:harfbuzz-shapes-differently-on-the-original-file", 0, 0, 0>>
-       ELSE LET v == [ck \in CK(t) |-> HBProbe(t, f, ck)]
+       ELSE LET v == TLCEval([ck \in CK(t) |-> HBProbe(t, f, ck)])        \* evaluated once per probe
                 gaps == {ck \in CK(t) : v[ck] = "gap"}
                 bad == \/ \E ck \in CK(t) : v[ck] = "bad"
                        \/ \E i \in R \ {f} : ~t.runs[i].sameM /\ \E ck \in gaps : HBProbe(t, i, ck) = "bad"
